@@ -182,6 +182,34 @@ def damage(text, specs):
             for l, nm in zip(g["lines"], names):
                 if nm == tgt:
                     drop.add(id(l))
+        elif how == "phospho":
+            # atoms outside the residue's definition: a phosphate on the side-chain oxygen
+            # of a SER / THR / TYR that keeps its standard name
+            pos = {nm: _xyz(l) for l, nm in zip(g["lines"], names)}
+            oname = next((n_ for n_ in ("OG", "OG1", "OH") if n_ in pos), None)
+            prev = {"OG": "CB", "OG1": "CB", "OH": "CZ"}.get(oname)
+            if oname and prev in pos:
+                o, c = pos[oname], pos[prev]
+
+                def unit(v):
+                    n_ = math.sqrt(sum(x * x for x in v)) or 1.0
+                    return [x / n_ for x in v]
+
+                u = unit([o[i] - c[i] for i in range(3)])
+                # two directions perpendicular to u
+                a = unit([u[1], -u[0], 0.0]) if abs(u[2]) < 0.9 else unit([0.0, u[2], -u[1]])
+                b = [u[1] * a[2] - u[2] * a[1], u[2] * a[0] - u[0] * a[2], u[0] * a[1] - u[1] * a[0]]
+                pxyz = [o[i] + 1.6 * u[i] for i in range(3)]
+                oline = next(l for l, nm in zip(g["lines"], names) if nm == oname)
+                extra = [_set_xyz(oline[:12] + " P  " + oline[16:], *pxyz)]
+                for nm_, d in (("O1P", [0.5 * u[i] + 0.87 * a[i] for i in range(3)]),
+                               ("O2P", [0.5 * u[i] - 0.43 * a[i] + 0.75 * b[i] for i in range(3)]),
+                               ("O3P", [0.5 * u[i] - 0.43 * a[i] - 0.75 * b[i] for i in range(3)])):
+                    extra.append(_set_xyz(oline[:12] + " " + nm_ + oline[16:],
+                                          *[pxyz[i] + 1.5 * d[i] for i in range(3)]))
+                last = g["lines"][-1]
+                add_after[id(last)] = (add_after.get(id(last), "") + "\n" if id(last) in add_after
+                                       else "") + "\n".join(extra)
         elif how.startswith("only_atom:"):
             keep = how.split(":", 1)[1]
             if keep in names:
